@@ -207,7 +207,8 @@ K13_SIG = "sqlite:multi-statement-read-not-a-snapshot"
 
 
 def without_overlapping_getters(t):
-    """the same history minus the read calls that overlap a call of another worker (shape of recorded finding K13)"""
+    """the same history minus the read calls that overlap a WRITE call of another worker (shape of recorded finding K13: a
+    write committed by another connection between two SELECTs of one read; a read that overlaps only reads cannot be torn)"""
     ev, open_calls, drop = t["ev"], {}, set()
     spans = []          # (worker, start index, end index, is_getter)
     for i, e in enumerate(ev):
@@ -217,7 +218,7 @@ def without_overlapping_getters(t):
             s0 = open_calls.pop(e["w"])
             spans.append((e["w"], s0, i, ev[s0]["op"]["a"].startswith("get_")))
     for w, a, b, g in spans:
-        if g and w > 0 and any(w2 != w and not (b2 < a or a2 > b) for w2, a2, b2, g2 in spans):
+        if g and w > 0 and any(w2 != w and not g2 and not (b2 < a or a2 > b) for w2, a2, b2, g2 in spans):
             drop |= {a, b}
     if not drop:
         return None
